@@ -49,6 +49,9 @@ type simConn struct {
 	sawError   bool // a Read/Write already returned an error to the client
 	deliveredCorr map[int32]bool // correlation ids of responses put into the client's read buffer
 	deliveredAt   map[int32]int64 // ... and when (fake us)
+	clientCloseUs int64 // when the client closed the connection (0: it has not)
+	serverCloseUs int64 // when the server side closed or reset it (0: it has not)
+	groupAPI      bool  // a group request (join/sync/heartbeat/leave/offset commit/fetch) arrived on it
 	poisoned   bool // the server injected a garbage response on this connection
 	expectResp int // requests written that expect a response and are unanswered (C14)
 	noResp     map[int]bool
@@ -177,6 +180,9 @@ func (c *simConn) deliver(b []byte) {
 // serverClose: the broker side closes/reset the connection.
 func (c *simConn) serverClose(eof bool) {
 	c.mu.Lock()
+	if !c.reset {
+		c.serverCloseUs = c.k.nowUs()
+	}
 	c.reset = true
 	c.eof = eof
 	c.mu.Unlock()
@@ -212,6 +218,9 @@ func (c *simConn) Close() error {
 	if was {
 		return errors.New("close of closed connection")
 	}
+	c.mu.Lock()
+	c.clientCloseUs = c.k.nowUs()
+	c.mu.Unlock()
 	c.k.logf("conn c%d closed by client", c.id)
 	return nil
 }
